@@ -93,13 +93,13 @@ def random_wf(rng, maxn=4, heavy=False):
 def join_wf(rng):
     """join-heavy DAG: several parents feeding a join over edges of different
     (also non-divisible) volumes, plus a tail"""
-    n = rng.randint(4, 7)
+    n = rng.randint(4, 7) if rng.random() < 0.75 else rng.randint(11, 13)
     nodes = [{"k": k, "comp": rng.choice([1, 2, 3, 4, 6, 8]), "data": rng.choice([0, 0, 0, 2, 5])}
              for k in range(1, n + 1)]
     edges = []
     for v in range(2, n + 1):
         for u in range(1, v):
-            if rng.random() < (0.7 if v >= n - 1 else 0.3):
+            if rng.random() < (0.7 if v >= n - 1 else (0.3 if n <= 7 else 0.15)):
                 edges.append({"u": u, "v": v, "vol": rng.choice([0, 1, 2, 3, 5, 6, 7])})
     return {"nodes": nodes, "edges": edges}
 
